@@ -1196,3 +1196,11 @@ Proof.
   unfold fund. destruct (amount =? 0); [by intros [= _ _ _ <-]|].
   destruct (select_utxos _ _ _ _ _) as [[? ?]|]; [|done]. by intros [= _ _ _ <-].
 Qed.
+
+(** Redistribute with a non-zero fee and a change of 1 and of exactly the fee of one input
+    (3): the change is written into the transaction, inputs = outputs + fee + change *)
+Example ex_redistribute_small_change :
+  (∃ s', redistribute ex_pool 1 44 3 [0; 2] = (s', RRedist [mk_rtx [2]%N 1 1 5])) ∧
+  (∃ s', redistribute ex_pool 1 42 3 [0; 2] = (s', RRedist [mk_rtx [2]%N 1 3 5])) ∧
+  50 = 44 * 1 + 5 + 1 ∧ 50 = 42 * 1 + 5 + 3.
+Proof. split; [|split]; [eexists; vm_compute; reflexivity..|lia]. Qed.
